@@ -1,7 +1,18 @@
 """Shared campaign plumbing of the symbol-table checks (C17, C18, C28): run the observers on one binary and assemble
 the event the trace specification judges.  Nothing here judges."""
-import json, os
+import json, os, time
 import vf, symobs
+
+
+def run(cmd, **kw):
+    """vf.run, retried when the tool binary is momentarily unavailable (a concurrent bin/build relinking it)."""
+    for attempt in range(90):
+        try:
+            return vf.run(cmd, **kw)
+        except (PermissionError, FileNotFoundError, OSError) as ex:
+            last = ex
+            time.sleep(2)
+    vf.infra("cannot execute %s: %s" % (cmd[0], last))
 
 
 def abidw_cmd(path, mode="kernel"):
@@ -34,7 +45,7 @@ def symtab_event(path, kind, mode="kernel", e="Symtab", api=True, harness=None, 
     t = facts or elf_facts(path)
     ev = {"e": e, "bin": path, "kind": kind, "mode": mode}
     ev.update(t)
-    r = vf.run(abidw_cmd(path, mode), env=vf.henv(scratch), timeout=120)
+    r = run(abidw_cmd(path, mode), env=vf.henv(scratch), timeout=120)
     ev["ret"] = ret_of(r)
     ev.update({"abidw": [], "classes": [], "hasApi": False, "api": [], "apiclasses": []})
     if ev["ret"] == "ok":
@@ -57,7 +68,7 @@ def symtab_event(path, kind, mode="kernel", e="Symtab", api=True, harness=None, 
 
 def run_harness(harness, path, mode="kernel", scratch=None):
     cmd = [harness, path] + (["--no-linux-kernel-mode"] if mode == "nokernel" else [])
-    r = vf.run(cmd, env=vf.henv(scratch), timeout=120)
+    r = run(cmd, env=vf.henv(scratch), timeout=120)
     if ret_of(r) != "ok":
         return {"ret": ret_of(r), "stderr": r.err[-300:]}
     try:
